@@ -262,7 +262,9 @@ def main():
         print(str(e))
         obligations_broken.append(("extraction", str(e)[-800:]))
     ok_drv, out_drv = C.lake(["driver-" + P.COMPONENT])
-    ok_p, out_p = C.lake(["JsonC.Props." + prop])
+    TIE = list(getattr(P, "TIE", ()))
+    prop_targets = ["JsonC.Props." + prop] + ["JsonC.Lemmas." + m for m in TIE]
+    ok_p, out_p = C.lake(prop_targets)
     thms, ax = [], {}
     changed = C.facts_changed()
     root = C.LEAN
@@ -280,7 +282,7 @@ def main():
         log("FACTS CHANGED (%s): the model regenerated from the current source is not covered by the theorems [%s];\n"
             "falling back to the reference model (build/reflake)\n%s" % ("; ".join(n for n, _ in changed), why, "\n".join(fact_lines)[:3000]))
         ok_drv, out_drv = C.lake_ref(["driver-" + P.COMPONENT])
-        ok_p, out_p = C.lake_ref(["JsonC.Props." + prop])
+        ok_p, out_p = C.lake_ref(prop_targets)
         if ok_drv:
             MODEL_EXE = C.ref_driver_path(P.COMPONENT)
         root = C.REFLAKE
@@ -299,7 +301,7 @@ def main():
             hits = C.audit_sources(prop)
             if hits:
                 obligations_broken.append(("source audit", "\n".join(hits[:20])))
-            ax, problems = C.audit_axioms(prop)
+            ax, problems = C.audit_axioms(prop, TIE)
             thms = sorted(ax)
             if problems:
                 obligations_broken.append(("axiom audit", "\n".join(problems[:20])))
@@ -459,10 +461,10 @@ def main():
         print(v)
 
     # ---- 6: evidence
-    n_thm = len(theorems_safe(prop))
+    n_thm = len(theorems_safe(prop, TIE))
     discharged = len(thms) if ok_p and not any(o[0] in ("source audit", "axiom audit") for o in obligations_broken) else 0
     trusted = ["Lean 4 kernel (lean 4.33.0)", "axioms: " + ", ".join(sorted({x for v in ax.values() for x in v}) or ["none"]),
-               "tools/extract (constants/structure regenerated from source)",
+               "tools/extract (constants/structure regenerated from source; c2lean.py: clang AST -> Lean for the functions of Generated/Translated.lean)",
                "correspondence harness harness/%s.c + Driver (differential run, ASan/UBSan)" % P.HARNESS] + list(getattr(P, "TRUSTED", []))
     coverage = {
         "obligations": max(1, n_thm), "discharged": discharged,
@@ -492,9 +494,9 @@ def main():
     sys.exit(1 if violations else 0)
 
 
-def theorems_safe(prop):
+def theorems_safe(prop, tie=()):
     try:
-        return C.theorems_of(prop)
+        return C.theorems_of(prop, tie)
     except OSError:
         return []
 
